@@ -167,6 +167,10 @@ TABLE = [
     # the reference's "orders within 3 days": the difference of two dates is a number of days
     ('[r.kind for r in dated if abs(r.day - txn.date) <= 3]', ['ach', 'WIRE']), ('[r.kind for r in dated if r.day - date >= 1]', ['ach']), ('date - date == 0', True),
     ('[r.day - date for r in dated]', [1, 0]), ('len([r for r in dated if abs(r.day - txn.date) <= 0])', 1),
+    # scoping like Python: a name bound to None stays bound after a comprehension reuses it; a loop variable named txn / field is that variable
+    ('((x := None) == None) and (len([x for x in orders]) == 3) and (x == None)', True), ('((x := None) == None) and any(x.qty > 1 for x in orders) and (x == None)', True),
+    ('sum(txn.amount for txn in orders)', 38.5), ('[txn.qty for txn in orders]', [2, 1, 5]), ('len([field for field in orders if field.id == "78"])', 1),
+    ('sum(txn.amount for txn in orders) > 0 and txn.amount == 15.5', True), ('len([field.id for field in orders]) == 3 and field.kind == "wire"', True),
     ('"a" in [r.id for r in empty]', False), ('field.kind in [r.kind for r in dated]', True), ('field.kind not in [r.kind for r in dated]', False),
 ]
 
